@@ -5,7 +5,7 @@ import prelude
 from check import canon_exc, hx
 
 MANIFEST = {
-    "text": "Lean theorems pick_best (lowest priority, then highest weight, for every non-empty answer list), pick_perm (order independence under any permutation), query_name, strip_target/rstrip_dot over a model whose selection is core List.mergeSort (stable) on the key (priority, -weight); tied to _dns.py by correspondence of lookup_dc and async_lookup_dc with the resolver scripted over every multiset of ≤3 (quick) / ≤5 (thorough) records in every permutation",
+    "text": "Lean theorems pick_best (lowest priority, then highest weight, for every non-empty answer list), pick_perm (order independence under any permutation), query_name, strip_target/rstrip_dot over a model whose selection is core List.mergeSort (stable) on the key (priority, -weight); tied to _dns.py by correspondence of lookup_dc and async_lookup_dc with the resolver scripted over every multiset of ≤3 (quick) / ≤5 (thorough) records in every permutation; the four call sites in _client.py (sync/async × protect/unprotect without a server) are driven through the public API with the resolver and GetKey stubbed: one lookup, for the blob's domain name / the caller's domain_name, connection to the chosen target, sync = async",
     "note": "Trusted: Lean kernel; that Python's sorted() is a stable sort by the key tuple (modelled by mergeSort); dnspython's Answer iteration order = the scripted order; tie is differential",
     "technique": "Lean 4 proof (sortedness + permutation lemmas of mergeSort) over a hand-written model + exhaustive small-scope correspondence",
 }
@@ -90,8 +90,75 @@ def oracle(ctx, domain, recs, out):
         ctx.violation("returned record is not one of the answers with its trailing dot removed", {"domain": domain, "records": recs}, out, "a record of the answer")
 
 
+class _Stop(Exception):
+    pass
+
+
+def call_sites(ctx):
+    """the four places the result is used (sync/async × protect/unprotect, no server given): the lookup is made for the blob's
+    DOMAIN name (unprotect) / the caller's domain_name (protect), exactly once, and the connection goes to the chosen record's target"""
+    import dataclasses
+    import dpapi_ng, dpapi_ng._dns as d, dpapi_ng._client as c
+    from dpapi_ng._blob import DPAPINGBlob
+    import clientsim, refdc, uuid
+    rk = uuid.UUID("d778c271-9025-9a82-f6dc-b8960b8ad8c5")
+    dc = refdc.KeyServer(kdf_factory=clientsim.toy_kdf_factory, public_key_fn=clientsim.toy_public_key, now=(361, 7, 7))
+    dc.add_root(refdc.RootKeyRec(rk, bytes(range(64))))
+    sim = clientsim.Sim(dc)
+    with sim.world():
+        sim.load(dc.roots[rk])
+        out = sim.protect(b"x", "S-1-5-21-1-2-3-1103", rk=rk)
+    blob = DPAPINGBlob.unpack(bytes.fromhex(out[5:]))
+    recs = [Rec("backup.corp.test.", 390, 5, 10), Rec("dc02.child.corp.test.", 389, 1, 0), Rec("dc01.child.corp.test.", 389, 9, 0)]
+    for (dom, forest) in (("child.corp.test", "corp.test"), ("corp.test", "corp.test"), ("a.test", "zz.a.test")):
+        wire = dataclasses.replace(blob, key_identifier=dataclasses.replace(blob.key_identifier, domain_name=dom, forest_name=forest)).pack()
+        for kind in ("unprotect", "protect:None", "protect:" + dom):
+            seen = {}
+            for flavour in ("sync", "async"):
+                log, servers = [], []
+
+                def sgk(server, *a, **kw):
+                    servers.append(server)
+                    raise _Stop()
+
+                async def agk(server, *a, **kw):
+                    servers.append(server)
+                    raise _Stop()
+                saved = (d.dns, c._sync_get_key, c._async_get_key)
+                d.dns, c._sync_get_key, c._async_get_key = FakeDns(recs, log), sgk, agk
+                try:
+                    if kind == "unprotect":
+                        f = (lambda: dpapi_ng.ncrypt_unprotect_secret(wire)) if flavour == "sync" else (lambda: asyncio.run(dpapi_ng.async_ncrypt_unprotect_secret(wire)))
+                        want_dom = dom
+                    else:
+                        arg = None if kind.endswith("None") else dom
+                        f = (lambda: dpapi_ng.ncrypt_protect_secret(b"x", "S-1-5-18", domain_name=arg)) if flavour == "sync" else \
+                            (lambda: asyncio.run(dpapi_ng.async_ncrypt_protect_secret(b"x", "S-1-5-18", domain_name=arg)))
+                        want_dom = arg
+                    try:
+                        f()
+                        res = "returned"
+                    except _Stop:
+                        res = "stopped at GetKey"
+                    except Exception as e:  # noqa
+                        res = "err " + canon_exc(e)
+                finally:
+                    d.dns, c._sync_get_key, c._async_get_key = saved
+                want_q = "_ldap._tcp.dc._msdcs" + (("." + want_dom) if want_dom else "")
+                obs = (res, [(m, n) for (m, n, _, _) in log], servers)
+                want = ("stopped at GetKey", [(flavour, want_q)], ["dc01.child.corp.test"])
+                ctx.count("call_site:" + kind.split(":")[0] + ":" + flavour)
+                if obs != want:
+                    ctx.violation("the API does not look up the DC of the right domain / connect to the chosen record",
+                                  {"api": kind, "flavour": flavour, "blob_domain": dom, "blob_forest": forest}, str(obs), str(want))
+                seen[flavour] = (obs[1][0][1] if obs[1] else None, obs[2])
+            if seen["sync"] != seen["async"]:
+                ctx.violation("sync and async APIs look up / connect differently", {"api": kind, "blob_domain": dom, "blob_forest": forest}, str(seen["async"]), str(seen["sync"]))
+
+
 def run(ctx):
     prelude.validate(ctx)
+    call_sites(ctx)
     rng = ctx.rng
     N = 5 if ctx.thorough else 3
     vals = [(p, w) for p in (0, 1, 2) for w in (0, 1, 2)]
@@ -148,8 +215,13 @@ def search(ctx, broken, disagreements):
 
 def replay(ctx, payload):
     v = payload["violation"]["input"]
-    recs = [tuple(r) for r in v["records"]]
     n0 = len(ctx.violations)
+    if "api" in v:
+        call_sites(ctx)
+        for x in ctx.violations[n0:]:
+            print(" ", x["what"], x["input"], x["observed"])
+        return len(ctx.violations) == n0
+    recs = [tuple(r) for r in v["records"]]
     for a in (False, True):
         out = impl(v.get("domain"), recs, a)
         print(("async " if a else "sync ") + out)
